@@ -483,6 +483,18 @@ public:
     }
 
     /**
+     * Get the rank of this stylesheet in the order of increasing import
+     * precedence.  It is assigned by postConstruction().
+     *
+     * @return The rank of the stylesheet
+     */
+    unsigned long
+    getImportPrecedence() const
+    {
+        return m_importPrecedence;
+    }
+
+    /**
      * whether there is a wrapper template
      * 
      * @return true is there is a wrapper
@@ -782,6 +794,12 @@ private:
     StylesheetVectorType                    m_imports;
 
     StylesheetVectorType::size_type         m_importsSize;
+
+    /**
+     * The rank of this stylesheet in the order of increasing import
+     * precedence.
+     */
+    unsigned long                           m_importPrecedence;
 
     /**
      * A stack to keep track of the result tree namespaces.
